@@ -154,6 +154,7 @@ def run(ctx, rep):
     ok = len(cleanup) == 1 and bool(bailb) and c.bdominates(bailb[0], cleanup[0].block)
     rep.check(ok, 'R-C07-6', 'state_check_process: created-but-unfinished files are removed after bail (every exit path)', cleanup[0].loc() if cleanup else c.file, '', function='state_check_process', construct='cleanup created')
     rule_created_reset(P, rep, 'R-C07-6c')
+    rule_finished_only_processed(P, rep, 'R-C07-6f')
     sc = P.fn('state_check')
     rep.analysed(sc)
     pt = list(sc.calls('parity_truncate'))
@@ -181,3 +182,51 @@ def rule_created_reset(P, rep, rid):
         if any('created' in a_ and p_ for a_, p_ in gs) and hcs and c.dominates(hcs[0], x):
             okg = True
     rep.check(okg, rid, 'state_check_process: FILE_IS_CREATED set only under handle[j].created after handle_create', c.file, '', function='state_check_process', construct='created flag source')
+
+
+def rule_finished_only_processed(P, rep, rid):
+    """the end-of-fix clean-up removes files that were created but not finished; file_post may mark a file finished only
+    on the path that really finishes it: after the test that skips excluded files and, under --filter-error, unsynced files"""
+    from ..guards import guards_of
+    rep.rule(rid, 'file_post: the FINISHED mark (which protects a created file from the end-of-fix removal) is set only after the skip test for excluded / unsynced-under-filter files', 1)
+    fp = P.fn('file_post')
+    cc = P.fn('state_check_process')
+    rep.analysed(fp)
+    # the constant of FINISHED: the flag tested next to the removal in state_check_process
+    rm = [x for x in cc.calls('remove')]
+    consts = set()
+    for x in rm:
+        for a, pol in guards_of(cc, x):
+            if a.startswith('file_flag_has(') and pol is False:
+                try:
+                    consts.add(int(a.rstrip(')').split(',')[-1]))
+                except ValueError:
+                    pass
+    sets = [c for c in fp.calls('file_flag_set') if fp.const_of(c.ops[1]) in consts]
+    if len(consts) != 1 or len(sets) != 1:
+        raise AnalysisBroken('file_post: FINISHED mark not identified (constants %s, %d set sites)' % (sorted(consts), len(sets)))
+    st = sets[0]
+    hd = fp.loop_of(st.block)
+    skips = []
+    for b in range(len(fp.blocks)):
+        t = fp.term(b)
+        if t.op == 'br' and len(t.ops) == 3 and 'file_flag_has(file' in fp.expr(t.ops[0]):
+            skips.append(t)
+    stop = {fp.blocks[hd][0].id} if hd is not None else set()
+    from ..guards import normalise
+    later = []
+    n_ok = 0
+    for t in skips:
+        a, pol = normalise(fp, t.ops[0], True)
+        true_edge = t.ops[2][1] if pol else t.ops[1][1]      # edge taken when the flag IS set
+        false_edge = t.ops[1][1] if pol else t.ops[2][1]
+        r_true = fp.reach([fp.blocks[true_edge][0]], stop=stop, include_start=True)
+        r_false = fp.reach([fp.blocks[false_edge][0]], stop=stop, include_start=True)
+        if st.id in r_false and st.id not in r_true:
+            n_ok += 1
+        elif t.id in fp.reach([st], stop=stop):
+            later.append(fp.expr(t.ops[0]))
+    # the two skip reasons (excluded; unsynced under the filter) must both precede the mark
+    need = 2
+    rep.check(hd is not None and n_ok >= need, rid, 'file_post: FINISHED set only when the file is neither excluded nor skipped as unsynced', st.loc(),
+              '%d skip tests precede the mark (need %d); flag tests evaluated only after the mark: %s' % (n_ok, need, later), function='file_post', construct='finished only processed')
